@@ -252,7 +252,7 @@ Bad(b, p, f) ==
   R_lex_empty_char      |-> fm = "lit" /\ f.kind = "empty_char",
   R_lex_bad_escape      |-> fm = "lit" /\ f.kind \in {"bad_escape", "bad_escape_str", "bad_hex"},
   R_lex_unterminated_literal |-> fm = "lit" /\ f.kind \in {"unterm_str", "unterm_char", "eof_char", "eof_str"},
-  R_lex_unterminated_comment |-> fm = "lit" /\ f.kind = "eof_comment",
+  R_lex_unterminated_comment |-> (fm = "lit" /\ f.kind = "eof_comment") \/ (fm = "misc" /\ f.kind = "eof_comment_decl"),
   R_lex_bad_number      |-> fm = "lit" /\ f.kind \in {"bad_int_suffix", "bad_octal", "bad_float_suffix", "hex_nodigits", "exp_nodigits", "bin_nodigits"},
   R_int_constant_range  |-> fm = "lit" /\ f.kind = "too_big_int",
   R_lex_string_prefix_mix |-> fm = "lit" /\ f.kind = "mixed_prefix",
@@ -510,7 +510,8 @@ DropBase == {
   FTag("struct", "I", TRUE, "decl"), FTag("union", "Znew", TRUE, "ptr"), FTag("enum", "Znew", TRUE, "decl"), FObj("int"), FObj("struct_S")}
 DropCtx == {FStmt("case", "2"), FStmt("default", ""), FStmt("break", ""), FStmt("continue", ""), FStmt("return", "none"), FStmt("return", "gi"),
             FStmt("return", "gp"), FStmt("return", "gs")}
-DropFrags == {FDrop(f, t) : f \in DropBase \cup DropCtx, t \in {")", "]", "}", ":", ";"}}
+DropFrags == {FDrop(f, t) : f \in DropBase \cup DropCtx, t \in {")", "]", "}", ":", ";"}} \cup
+             UNION {{FSwap(f, t, w) : w \in SwapWith(t)} : f \in DropBase \cup DropCtx, t \in {")", "]", "}"}}
 AllFragsX == AllFrags \cup DropFrags
 
 DI(h, v, p) == [D0("define") EXCEPT !.fl = TRUE, !.hashop = h, !.va = v, !.paste = p]
@@ -561,7 +562,7 @@ Wit == [
   R_lex_empty_char |-> {FLit("empty_char")},
   R_lex_bad_escape |-> {FLit("bad_escape"), FLit("bad_escape_str"), FLit("bad_hex")},
   R_lex_unterminated_literal |-> {FLit("unterm_str"), FLit("unterm_char"), FLit("eof_char"), FLit("eof_str")},
-  R_lex_unterminated_comment |-> {FLit("eof_comment")},
+  R_lex_unterminated_comment |-> {FLit("eof_comment"), FMisc("eof_comment_decl")},
   R_lex_bad_number |-> {FLit("bad_int_suffix"), FLit("bad_octal"), FLit("bad_float_suffix"), FLit("hex_nodigits"), FLit("exp_nodigits"), FLit("bin_nodigits")},
   R_lex_string_prefix_mix |-> {FLit("mixed_prefix")},
   R_lex_stray_char |-> {FLit("stray_char")},
@@ -663,8 +664,8 @@ Wit == [
                         DI("none", "nonvariadic_later", FALSE), [D0("define") EXCEPT !.va = "nonvariadic_later"]},
   R_macro_no_name |-> {[D0("define") EXCEPT !.named = FALSE], [D0("undef") EXCEPT !.named = FALSE]},
   R_dir_extra_tokens |-> {[D0("undef") EXCEPT !.extra = TRUE]},
-  R_macro_arity |-> {FMinv(1, TRUE), FMinv(3, TRUE), FMinv(0, TRUE)},
-  R_macro_unterminated |-> {FMinv(2, FALSE)},
+  R_macro_arity |-> {FMinv(1, TRUE), FMinv(3, TRUE), FMinv(0, TRUE), FMinvM(1, TRUE, "MG"), FMinvM(3, TRUE, "MG")},
+  R_macro_unterminated |-> {FMinv(2, FALSE), FMinvM(1, FALSE, "MG")},
   U_volatile_store |-> {FAsg("=", "gvol", "gi"), FAsg("+=", "gvol", "k1"), FUn("preinc", "gvol")},
   U_long_double |-> {FBin("+", "gld", "gi"), FBin("<", "gi", "gld"), FAsg("=", "gld", "gd"), FAsg("=", "gd", "gld"), FUn("neg", "gld"), FUn("lnot", "gld"),
      FCast("int", "gld"), FSInit("double", "gld"), FCtl("if", "gld")},
@@ -761,7 +762,7 @@ BenignFrags == {
   FMisc("asm_label"), FMisc("attr_ok"),
   D0("define"), D0("undef"), D0("pragma"), D0("line"), D0("null"), [D0("define") EXCEPT !.redef = "same"], DI("param", "none", FALSE),
   DI("none", "variadic_used", FALSE), DI("none", "none", FALSE),
-  FMinv(2, TRUE)}
+  FMinv(2, TRUE), FMinvM(2, TRUE, "MG")}
 
 (* valid statements whose validity depends on the base *)
 BenignCtx(b) ==
@@ -1109,7 +1110,7 @@ SubOf(f) == CASE f.form \in {"bin", "un"} -> f.op
               [] f.form = "redecl" -> f.name
               [] f.form \in {"synx", "lit", "misc", "builtin"} -> f.kind
               [] f.form = "dir" -> (IF f.va # "none" THEN f.va ELSE f.d)
-              [] f.form = "drop" -> f.tok
+              [] f.form = "drop" -> (IF f.with = "" THEN f.tok ELSE f.with)
               [] OTHER -> f.form
 
 (* One invariant evaluates the rules once per state and does three things:                 *)
